@@ -68,3 +68,10 @@ Proof. exact (run_aligned (eq_refl : remove_always_splices = true)). Qed.
     attribute values, gets an answer and leaves a well-defined state *)
 Theorem C07_api_total : forall e s r, exists resp s', api_step e s r = (resp, s').
 Proof. intros e s r. destruct (api_step e s r) as [resp s']. eauto. Qed.
+
+(** regenerated from api.go on every run: the API server bounds the time a client may take to send a
+    request including its body (http.Server.ReadTimeout). The toxic handlers parse the body while
+    they hold the proxy's toxic lock, which the accept loop and every listing need: without the
+    bound one stalled upload freezes the proxy for as long as the client likes. *)
+Theorem C07_api_body_read_is_bounded : 0 < api_body_read_deadline_ns <= 30000000000.
+Proof. unfold api_body_read_deadline_ns. lia. Qed.
